@@ -43,8 +43,24 @@ ASSUMPTIONS = [
     "callback and demanding identical observations",
 ]
 
+def boundary_ids(rng, version, hist):
+    """nodes at the edges of the id space (0, 253, 254, 255) and an id request after them: nodes appear through
+    presentation *and* through id assignment, up to the protocol limit"""
+    r = rng.random()
+    if r < 0.25:
+        hi = rng.choice([0, 252, 253, 253, 254, 255])
+        k = rng.randrange(len(hist) + 1)
+        while k < len(hist) and hist[k][0] == "R":      # not between a stop and its restart
+            k += 1
+        hist = hist[:k] + [("L", f"{hi};255;0;0;17;{version}\n"), ("L", "255;255;3;0;3;\n")] + hist[k:]
+        if rng.random() < 0.5:
+            hist = hist + [("L", "255;255;3;0;3;\n")]
+    return hist
+
+
 CFG = {"quick": 200, "thorough": 5000, "persist": ["none", "none", "json", "pickle"], "lengths": [12, 25, 40],
-       "bias": {"pres_node": 1.5, "pres_child": 1.5, "set": 1.3, "internal": 1.5}, "malformed": 0.2}
+       "bias": {"pres_node": 1.5, "pres_child": 1.5, "set": 1.3, "internal": 1.5, "idreq": 1.5}, "malformed": 0.2,
+       "post": [boundary_ids]}
 
 
 _VAL = re.compile(r" st=.*V\(\d")
